@@ -94,9 +94,16 @@ func (s *State) clone() *State {
 }
 
 func (s *State) assume(c string) {
-	if c != "true" {
-		s.pc = append(s.pc, c)
+	if c == "true" {
+		return
 	}
+	// cheap de-duplication of the most recent facts
+	for i := len(s.pc) - 1; i >= 0 && i >= len(s.pc)-40; i-- {
+		if s.pc[i] == c {
+			return
+		}
+	}
+	s.pc = append(s.pc, c)
 }
 
 type Obligation struct {
@@ -138,6 +145,7 @@ type Fx struct {
 	inSpec   int
 	errGlobals []string
 	oblSeen  map[string]int
+	inQuant  int
 	defs     map[string]string // shared sub-terms: constant -> defining term
 }
 
@@ -166,9 +174,28 @@ func (fx *Fx) ctorArgsOf(term, ctor string) ([]string, bool) {
 }
 
 func (fx *Fx) oblige(st *State, kind, label, goal, info string) {
-	if goal == "true" {
-		// still count it: trivially discharged
+	// a conjunction is split into one obligation per conjunct (smaller queries, sharper failure reports)
+	if parts, ok := ctorArgs(goal, "and"); ok && len(parts) > 1 && (kind == "post" || kind == "inv-init" || kind == "inv-step" || kind == "pre") {
+		parts = flattenAnd(parts)
+		for i, p := range parts {
+			fx.obligeOne(st, kind, fmt.Sprintf("%s.%d", label, i+1), p, info)
+		}
+		return
 	}
+	// A ==> (c1 && c2 ...) is split as well
+	if args, ok := ctorArgs(goal, "=>"); ok && len(args) == 2 && (kind == "post" || kind == "inv-init" || kind == "inv-step" || kind == "pre") {
+		if parts, ok := ctorArgs(args[1], "and"); ok && len(parts) > 1 {
+			parts = flattenAnd(parts)
+			for i, p := range parts {
+				fx.oblige(st, kind, fmt.Sprintf("%s.%d", label, i+1), implies(args[0], p), info)
+			}
+			return
+		}
+	}
+	fx.obligeOne(st, kind, label, goal, info)
+}
+
+func (fx *Fx) obligeOne(st *State, kind, label, goal, info string) {
 	name := fx.key + "/" + kind + ":" + label
 	if idx, ok := fx.oblSeen[name]; ok {
 		o := fx.obls[idx]
@@ -179,6 +206,18 @@ func (fx *Fx) oblige(st *State, kind, label, goal, info string) {
 	}
 	fx.oblSeen[name] = len(fx.obls)
 	fx.obls = append(fx.obls, &Obligation{Name: name, Kind: kind, Assume: append([]string(nil), st.pc...), Goal: goal, Func: fx.key, Expect: "unsat", Info: info})
+}
+
+func flattenAnd(parts []string) []string {
+	var out []string
+	for _, p := range parts {
+		if sub, ok := ctorArgs(p, "and"); ok && len(sub) > 1 {
+			out = append(out, flattenAnd(sub)...)
+		} else {
+			out = append(out, p)
+		}
+	}
+	return out
 }
 
 // ---------- heap ----------
@@ -225,7 +264,15 @@ func (fx *Fx) load(st *State, l *Loc) Val {
 }
 
 // loaded adds the facts known about any value read from memory.
-func (fx *Fx) loaded(st *State, v Val) Val { return v }
+func (fx *Fx) loaded(st *State, v Val) Val {
+	if fx.inQuant == 0 && strings.HasPrefix(v.S, "Seq_") {
+		st.assume(app("<=", "0", fx.seqLen(v)))
+	}
+	if fx.inQuant == 0 && v.S == SInt && isUnsigned64(v.T) {
+		st.assume(and(app("<=", "0", v.X), app("<=", v.X, "18446744073709551615")))
+	}
+	return v
+}
 
 func (fx *Fx) fieldOf(st *State, b Val, field string, ft types.Type) Val {
 	if _, ok := fx.d.structs[b.S]; !ok {
@@ -243,7 +290,7 @@ func (fx *Fx) fieldOf(st *State, b Val, field string, ft types.Type) Val {
 			if parts, ok := fx.ctorArgsOf(b.X, info.ctor); ok && len(parts) == len(info.fields) {
 				x = parts[i]
 			}
-			return Val{T: t, S: info.fsorts[i], X: x}
+			return fx.loaded(st, Val{T: t, S: info.fsorts[i], X: x})
 		}
 	}
 	panic(unsupported("no field " + field + " in " + b.S))
